@@ -174,8 +174,22 @@ def run(tier, seed, replay=None):
                     for t in (c.targets if isinstance(c, ast.Assign) else [c.target]):
                         if isinstance(t, ast.Attribute) and isinstance(t.value, ast.Name) and t.value.id == "self":
                             (init_assigned if f.name in ("__init__", "__setstate__") else assigned_late).add(t.attr)
-    ck.struct("vis.no_cache", not (assigned_late - init_assigned - {"_fields"}),
-              "reader state assigned outside the constructor (could cache what is on disk): %s" % sorted(assigned_late - init_assigned), {})
+    # state written by a query method outlives the query: that is a cache of what is on disk, whether or not the constructor
+    # initialised the attribute (also: self.x[...] = ..., self.x.append/update/add/setdefault/clear(...))
+    for f in cls.body:
+        if isinstance(f, ast.FunctionDef) and f.name not in ("__init__", "__setstate__"):
+            for c in ast.walk(f):
+                if isinstance(c, (ast.Assign, ast.AugAssign)):
+                    for t in (c.targets if isinstance(c, ast.Assign) else [c.target]):
+                        if isinstance(t, ast.Subscript) and isinstance(t.value, ast.Attribute) and isinstance(t.value.value, ast.Name) and t.value.value.id == "self":
+                            assigned_late.add(t.value.attr + "[...]")
+                if isinstance(c, ast.Call) and isinstance(c.func, ast.Attribute) and c.func.attr in ("append", "update", "add", "setdefault", "clear", "extend", "pop", "__setitem__") \
+                        and isinstance(c.func.value, ast.Attribute) and isinstance(c.func.value.value, ast.Name) and c.func.value.value.id == "self":
+                    assigned_late.add(c.func.value.attr + "." + c.func.attr)
+                if isinstance(c, ast.Call) and isinstance(c.func, ast.Name) and c.func.id == "setattr":
+                    assigned_late.add("setattr(...)")
+    ck.struct("vis.no_cache", not (assigned_late - {"_fields"}),
+              "reader state written outside the constructor (a cache of what is on disk): %s" % sorted(assigned_late), {})
     for nm in ("DigitalMetadataReader.read", "DigitalMetadataReader.get_bounds", "DigitalMetadataReader.read_latest", "DigitalMetadataReader._add_metadata",
                "DigitalMetadataWriter._sample_group_generator"):
         ck.add_function(pyload.source_info(dm, nm))
@@ -190,6 +204,7 @@ def run(tier, seed, replay=None):
     ck.replayers["dmd."] = C13.replay_dmd
     ck.replayers["w.gen"] = C13.replay_dmd
     ck.replayers["ro."] = C13.replay_dmd
+    ck.replayers["vis."] = C13.replay_dmd
     ck.discharge()
     n = 1200 if tier == "thorough" else 120
     r = replay_py.run_driver("dmd_history.py", {"seed": seed + 2, "channels": n, "queries": 8, "max_failures": 3}, timeout=3000)
